@@ -62,6 +62,9 @@ def handle (op : String) (j : Json) : Option (Except String Json) :=
   | "c04.one_body" => some do
       .ok (J.ofOp (C04.jwOneBody tol (← J.nat (← J.field j "p")) (← J.nat (← J.field j "q"))
         (← J.gq (← J.field j "c"))))
+  | "c04.one_body_ok" => some do
+      .ok (Json.bool (C04.jwOneBodyOk tol (← J.nat (← J.field j "p")) (← J.nat (← J.field j "q"))
+        (← J.gq (← J.field j "c"))))
   | "c04.two_body" => some do
       .ok (J.ofOp (C04.jwTwoBody tol (← J.nat (← J.field j "p")) (← J.nat (← J.field j "q"))
         (← J.nat (← J.field j "r")) (← J.nat (← J.field j "s")) (← J.gq (← J.field j "c"))))
